@@ -119,7 +119,7 @@ static void lifecycle(vf::Ctx& c, int kind, int body, uint64_t pattern)
 {
 	std::string how = setDelays(c, pattern);
 	sched::reset_trace();
-	static const char* KN[] = {"subclass start/join", "lambda thread", "parallel_invoke(2)", "parallel_invoke(3)", "parallel_invoke(4)", "ThreadGroup", "two lambda threads", "subclass restarted"};
+	static const char* KN[] = {"subclass start/join", "lambda thread", "parallel_invoke(2)", "parallel_invoke(3)", "parallel_invoke(4)", "ThreadGroup", "two lambda threads", "subclass restarted", "subclass restarted after finished() was seen, no join() in between"};
 	c.desc(vf::fmt("%s, body %d, %s", KN[kind], body, how.c_str()));
 	std::atomic<int> runs(0);
 	int out[8] = {0};
@@ -187,6 +187,22 @@ static void lifecycle(vf::Ctx& c, int kind, int body, uint64_t pattern)
 		if (!w.finished()) c.fail("thread.finished-false-after-join", "restarted thread");
 		break;
 	}
+	case 8: {
+		// the end of the first run is observed with finished() only; the object is then started again and joined
+		// (the first OS thread is never joined - the API offers no way to - so this scenario is left out of the TSan build, which reports it as a thread leak)
+		Worker w(&runs, &out[0], 7, body);
+		w.start();
+		bool seen = false;
+		for (int i = 0; i < 200000 && !(seen = w.finished()); i++) { struct timespec ts = {0, 50000}; nanosleep(&ts, 0); }
+		if (!seen) { c.inconclusive("first-run-not-finished-within-10s"); break; }
+		if (runs != 1) c.fail("thread.run-count", vf::fmt("finished() is true but run() executed %d times", (int)runs));
+		w.value = 8;
+		w.start();
+		w.join();
+		if (runs != 2 || out[0] != 8) c.fail("thread.run-count", vf::fmt("started twice (second start after finished() was seen), %d executions, out %d", (int)runs, out[0]));
+		if (!w.finished()) c.fail("thread.finished-false-after-join", "thread restarted after finished()");
+		break;
+	}
 	}
 	uint64_t eh = sched::g().ehash.load();
 	sched::off();
@@ -197,8 +213,11 @@ static void lifecycle(vf::Ctx& c, int kind, int body, uint64_t pattern)
 static void mode_lifecycle(vf::Ctx& c)
 {
 	// systematic: kind x body x delay pattern
-	int kind = (int)(c.idx % 8), body = (int)((c.idx / 8) % 4);
-	uint64_t pat = (c.idx / 32) % 130;   // 0, masks 1..127, 128/129 = random jitter
+	int kind = (int)(c.idx % 9), body = (int)((c.idx / 9) % 4);
+	uint64_t pat = (c.idx / 36) % 130;   // 0, masks 1..127, 128/129 = random jitter
+#if defined(__SANITIZE_THREAD__)
+	if (kind == 8) kind = 7;
+#endif
 	int reps = (int)c.opt->param("reps", 3);
 	for (int r = 0; r < reps; r++) { lifecycle(c, kind, body, pat); c.evals(1); }
 	if (c.want_sample()) c.sample(c.curdesc());
@@ -222,6 +241,23 @@ static void mode_sem(vf::Ctx& c)
 	for (long i = 0; i < need % C; i++) quota[i]++;
 	c.desc(vf::fmt("semaphore init %d, %d producers (%ld posts in total), %d consumers taking %ld, %ld left", init, P, total, C, need, leave));
 	uint64_t seed = c.rng.next();
+	{
+		// one thread: a timed wait that expires, then a post, then a timed wait that must succeed (and trywait / wait after it)
+		Semaphore s2;
+		int nto = c.rng.range(1, 3);
+		for (int i = 0; i < nto; i++) if (s2.wait(0.001 * c.rng.range(1, 4))) c.fail("semaphore.extra-wakeup", "wait(timeout) returned true on a semaphore that was never posted");
+		int np = c.rng.range(1, 4);
+		if (c.rng.chance(0.5)) s2.post(np); else for (int i = 0; i < np; i++) s2.post();
+		for (int i = 0; i < np; i++) {
+			int how = (int)c.rng.below(3);
+			bool ok = how == 0 ? s2.wait(2.0) : how == 1 ? s2.trywait() : (s2.wait(), true);
+			if (!ok) c.fail("semaphore.post-lost", vf::fmt("%d posts after %d expired timed waits on the same thread: %s number %d returned false, value() %d", np, nto, how == 0 ? "wait(2.0)" : "trywait()", i, s2.value()));
+		}
+		if (s2.value() != 0) c.fail("semaphore.final-value", vf::fmt("value() %d after taking every post", s2.value()));
+		if (s2.trywait()) c.fail("semaphore.extra-wakeup", "trywait() succeeded on an empty semaphore");
+		c.count("sem_timeout_then_post_sequences");
+	}
+	int lateProducersMs = c.rng.chance(0.3) ? c.rng.range(5, 80) : 0;   // consumers meet an empty semaphore first and time out
 	Semaphore sem(init);
 	std::atomic<int> producersDone(0);
 	std::atomic<long> got(0), timeouts(0), gaveup(0);
@@ -229,6 +265,7 @@ static void mode_sem(vf::Ctx& c)
 	for (int p = 0; p < P; p++)
 		th.emplace_back([&, p]() {
 			vf::Rng r(vf::mix(seed, p));
+			if (lateProducersMs) { struct timespec ts = {0, lateProducersMs * 1000000L}; nanosleep(&ts, 0); }
 			for (size_t k = 0; k < posts[p].size(); k++) {
 				if (posts[p][k] == 0) sem.post();
 				else if (posts[p][k] < 0) sem.post(0);
@@ -243,7 +280,7 @@ static void mode_sem(vf::Ctx& c)
 			long mine = 0;
 			int misses = 0;
 			while (mine < quota[q]) {
-				int how = r.below(3);
+				int how = lateProducersMs && mine == 0 && misses == 0 ? 1 : (int)r.below(3);
 				bool ok;
 				if (how == 0) ok = sem.trywait();
 				else if (how == 1) ok = sem.wait(0.05);
@@ -270,8 +307,67 @@ static void mode_sem(vf::Ctx& c)
 }
 
 // ---------------------------------------------------------------- Mutex + Condition, documented protocol, unique item ids
+// A signal issued under the mutex while every waiter is known to be inside wait()/wait(timeout) must wake all of them:
+// each waiter sets its flag under the mutex right before waiting (wait releases the mutex atomically), so a signaller
+// that sees all flags while holding the mutex knows they are waiting.
+static void cond_handshake(vf::Ctx& c)
+{
+	int nTimed = c.rng.range(0, 3), nPlain = c.rng.range(nTimed ? 0 : 1, 2);
+	int N = nTimed + nPlain;
+	double tmo = 8.0;
+	c.desc(vf::fmt("condition handshake: %d waiters in wait(%g s), %d in wait(), one signal once all are waiting", nTimed, tmo, nPlain));
+	Mutex mutex;
+	Condition cond(mutex);
+	int waiting = 0;        // protected by mutex
+	bool go = false;        // protected by mutex
+	std::atomic<int> wokenBySignal(0), timedOut(0), left(0);
+	std::vector<std::thread> th;
+	for (int i = 0; i < N; i++)
+		th.emplace_back([&, i]() {
+			bool timed = i < nTimed;
+			mutex.lock();
+			waiting++;
+			bool signalled = true;
+			double t0 = vf::now();
+			while (!go) {
+				if (timed) { signalled = !cond.wait(tmo); if (!signalled) break; }   // documented: wait(timeout) returns true if there was NO signal
+				else cond.wait();
+			}
+			bool ok = go;
+			mutex.unlock();
+			if (timed && !signalled) timedOut++;
+			else if (ok) wokenBySignal++;
+			(void)t0;
+			left++;
+		});
+	for (;;) {
+		mutex.lock();
+		if (waiting == N) break;
+		mutex.unlock();
+		sched_yield();
+	}
+	go = true;
+	double ts = vf::now();
+	cond.signal();
+	mutex.unlock();
+	// rescue untimed waiters if the signal was lost, so that the case ends; timed ones leave by themselves after tmo
+	while (left < N) {
+		struct timespec t1 = {0, 2000000}; nanosleep(&t1, 0);
+		if (vf::now() - ts > tmo + 4) { mutex.lock(); cond.signal(); mutex.unlock(); }
+	}
+	for (auto& x : th) x.join();
+	double took = vf::now() - ts;
+	if (timedOut) c.fail("condition.signal-lost.timed-waiter", vf::fmt("%d of %d waiters in wait(%g) reported a time-out although the signal was issued under the mutex while they were waiting (%.1f s)", (int)timedOut, nTimed, tmo, took));
+	if (took > tmo + 3.9 && !timedOut) c.fail("condition.signal-lost", vf::fmt("waiters in wait() were still blocked %.1f s after the signal", took));
+	c.count("cond_handshakes");
+	c.count("cond_handshake_timed_waiters", nTimed);
+	c.evals(N);
+	c.distinct(vf::mix(c.rng.next(), (uint64_t)nTimed * 8 + nPlain));
+}
+
 static void mode_cond(vf::Ctx& c)
 {
+	if (c.idx % 4 == 3) { cond_handshake(c); if (c.want_sample()) c.sample(c.curdesc()); return; }
 	int P = c.rng.range(1, 3), C = c.rng.range(1, 5), per = c.rng.range(1, 200);
 	c.desc(vf::fmt("condition queue: %d producers x %d items, %d consumers", P, per, C));
 	uint64_t seed = c.rng.next();
